@@ -922,3 +922,257 @@ def key_rebind(ctx, which=(FB, FF)):
                            "class the second iteration reads the DataFrame (`if <DataFrame>` "
                            "raises ValueError) - the filter cannot return" % (d, k))
         ctx.floor('KEY-REBIND', n, 1, 're-bound per-class entries in %s' % f.name)
+
+
+# ----------------------------------------------------------------- SCHED-SPAN / AVG-RATE
+def _int_lin(e, names):
+    """integer-linear form {name: coeff, 1: const} of an expression over the given atoms
+    (names maps normalised text -> atom); None when not linear"""
+    t = norm_text(e)
+    if t in names:
+        return {names[t]: 1}
+    if isinstance(e, ast.Constant) and isinstance(e.value, int) and not isinstance(e.value, bool):
+        return {1: e.value}
+    if isinstance(e, ast.UnaryOp) and isinstance(e.op, ast.USub):
+        a = _int_lin(e.operand, names)
+        return None if a is None else {k: -v for k, v in a.items()}
+    if isinstance(e, ast.BinOp) and isinstance(e.op, (ast.Add, ast.Sub)):
+        a, b = _int_lin(e.left, names), _int_lin(e.right, names)
+        if a is None or b is None:
+            return None
+        sg = 1 if isinstance(e.op, ast.Add) else -1
+        out = dict(a)
+        for k, v in b.items():
+            out[k] = out.get(k, 0) + sg * v
+        return {k: v for k, v in out.items() if v}
+    return None
+
+
+def sched_span(ctx, which=(FB, FF)):
+    ctx.rule('SCHED-SPAN', 'the main loop continues exactly while input remains: feedforward while a '
+             'next row exists (c + 1 <= len(table) - 1), feedback while the integrator time is '
+             'strictly before the last increment time')
+    for M in _models(ctx, which):
+        f = M.f
+        t = M.loop.test
+        from ..flow import strip_not
+        test, pol = strip_not(t)
+        ctx.need(isinstance(test, ast.Compare) and len(test.ops) == 1,
+                 '%s: loop condition `%s` is not a single comparison' % (f.name, norm_text(t)[:60]))
+        op = type(test.ops[0])
+        if not pol:
+            op = {ast.Lt: ast.GtE, ast.LtE: ast.Gt, ast.Gt: ast.LtE, ast.GtE: ast.Lt}.get(op)
+        lhs, rhs = test.left, test.comparators[0]
+        if op in (ast.Gt, ast.GtE):
+            lhs, rhs = rhs, lhs
+            op = ast.Lt if op is ast.Gt else ast.LtE
+        ctx.need(op in (ast.Lt, ast.LtE), '%s: loop condition `%s` is not an ordering test'
+                 % (f.name, norm_text(t)[:60]))
+        if M.kind == 'feedforward':
+            names = {M.c: 'c'}
+            for tb in ('trajectory', 'trajectory_nominal'):
+                if tb in f.params:
+                    names['len(%s)' % tb] = 'L'
+                    names['len(%s.index)' % tb] = 'L'
+                    names['%s.shape[0]' % tb] = 'L'
+            for st in M.pre:
+                # n = len(table) / times = table.index ... bound before the loop
+                if isinstance(st, ast.Assign) and isinstance(st.targets[0], ast.Name):
+                    tx = M.clo_pre.text(st.value, st)
+                    if tx in ('len(trajectory)', 'len(trajectory_nominal)',
+                              'len(trajectory.index)', 'len(trajectory_nominal.index)'):
+                        names[st.targets[0].id] = 'L'
+                    if tx in ('trajectory.index', 'trajectory_nominal.index'):
+                        names['len(%s)' % st.targets[0].id] = 'L'
+            a, b = _int_lin(lhs, names), _int_lin(rhs, names)
+            ctx.need(a is not None and b is not None,
+                     'feedforward: loop condition `%s` is not linear in the cursor and the number '
+                     'of rows' % norm_text(t)[:60])
+            d = dict(b)
+            for k, v in a.items():
+                d[k] = d.get(k, 0) - v
+            if op is ast.LtE:
+                d[1] = d.get(1, 0) + 1          # lhs <= rhs  <=>  rhs - lhs + 1 >= 1
+            d = {k: v for k, v in d.items() if v}
+            ok = d == {'L': 1, 'c': -1, 1: -1}
+            extra = d.get(1, 0) + 1 if set(d) <= {'L', 'c', 1} and d.get('L') == 1 and \
+                d.get('c') == -1 else None
+            ctx.ob('SCHED-SPAN', ok, None, 'feedforward: loop runs while c + 1 <= len - 1', f=f,
+                   node=t, key='ff-span',
+                   why='feedforward loop condition `%s` %s' % (norm_text(t), (
+                       'admits the cursor %d row(s) past the last interval (index error at the end '
+                       'of every run)' % extra if extra and extra > 0 else
+                       'stops %d interval(s) before the end of the trajectory: the last rows are '
+                       'never processed' % -extra) if extra else
+                       'is not `cursor + 1 < number of rows`'))
+        else:
+            integ = {n.targets[0].id for n in ast.walk(f.node) if isinstance(n, ast.Assign) and
+                     isinstance(n.targets[0], ast.Name) and isinstance(n.value, ast.Call) and
+                     (M.res(n.value.func) or '').endswith('strapdown.Integrator')}
+            okl = isinstance(lhs, ast.Call) and isinstance(lhs.func, ast.Attribute) and \
+                lhs.func.attr == 'get_time' and isinstance(lhs.func.value, ast.Name) and \
+                lhs.func.value.id in integ
+            rt = M.clo_pre.text(rhs, M.loop)
+            okr = rt in ('increments.index[-1]', 'increments.index[len(increments) - 1]')
+            ctx.ob('SCHED-SPAN', okl and okr and op is ast.Lt, None,
+                   'feedback: loop runs while integrator time < last increment time', f=f, node=t,
+                   key='fb-span',
+                   why='feedback loop condition `%s` (right side `%s`) is not `integrator time < '
+                       'time of the last increment`%s'
+                       % (norm_text(t), rt, ': with <= the loop asks for an increment past the '
+                          'end of the table' if op is ast.LtE and okl and okr else ''))
+
+
+def avg_rate(ctx, which=(FB, FF)):
+    ctx.rule('AVG-RATE', 'readings at which the sensor models are linearised: sum of the rotation / '
+             'velocity increments of the propagated batch (axis 0) divided by the same interval '
+             'that is handed over as time_delta')
+    repo = ctx.repo
+    h = repo.function('filters._compute_error_propagation_matrices')
+    theta = list(repo.const('util.THETA_COLS'))
+    dv = list(repo.const('util.DV_COLS'))
+    n_ob = 0
+    for M in _models(ctx, which):
+        f = M.f
+        calls = [(n, st) for st in M.loop.body for n in ast.walk(st)
+                 if isinstance(n, ast.Call) and
+                 (M.res(n.func) or '').endswith('filters._compute_error_propagation_matrices')]
+        ctx.need(len(calls) == 1, '%s: call of the propagation helper' % f.name)
+        call, cst = calls[0]
+        b = {}
+        for i, a in enumerate(call.args):
+            if i < len(h.params):
+                b[h.params[i]] = a
+        for kw in call.keywords:
+            b[kw.arg] = kw.value
+        ctx.need({'gyro', 'accel', 'time_delta'} <= set(b), '%s: helper arguments' % f.name)
+        for role, cols in (('gyro', theta), ('accel', dv)):
+            e = b[role]
+            # definitions reaching the call: under `if increments is None: X = None else: X = ...`
+            defs = []
+            if isinstance(e, ast.Name):
+                for s_ in ast.walk(M.loop):
+                    if isinstance(s_, ast.Assign) and isinstance(s_.targets[0], ast.Name) and \
+                            s_.targets[0].id == e.id:
+                        defs.append(s_)
+            else:
+                defs = [ast.Assign(targets=[ast.Name('_', ast.Store())], value=e)]
+            real = [d for d in defs if not (isinstance(d.value, ast.Constant) and
+                                            d.value.value is None)]
+            ctx.need(len(real) == 1, "%s: definition of the averaged %s readings" % (f.name, role))
+            v = real[0].value
+            ok_shape = isinstance(v, ast.BinOp) and isinstance(v.op, (ast.Div, ast.Mult))
+            ctx.need(ok_shape, '%s: averaged %s readings `%s` not of the form sum / interval'
+                     % (f.name, role, norm_text(v)[:60]))
+            num, den = v.left, v.right
+            why = []
+            if isinstance(v.op, ast.Mult):
+                # sum * (1 / dt) is an equivalent spelling
+                if isinstance(den, ast.BinOp) and isinstance(den.op, ast.Div) and \
+                        isinstance(den.left, ast.Constant) and den.left.value == 1:
+                    den = den.right
+                else:
+                    why.append('the sum of increments is multiplied by `%s` instead of divided by '
+                               'the interval' % norm_text(den))
+            if norm_text(den) != norm_text(b['time_delta']):
+                why.append('divided by `%s` while the step handed over is `%s`'
+                           % (norm_text(den), norm_text(b['time_delta'])))
+            okn = isinstance(num, ast.Call) and isinstance(num.func, ast.Attribute) and \
+                num.func.attr == 'sum'
+            ctx.need(okn, '%s: numerator `%s` is not a .sum(...)' % (f.name, norm_text(num)[:50]))
+            ax = [k.value for k in num.keywords if k.arg == 'axis'] + list(num.args[:1])
+            axv = ax[0].value if ax and isinstance(ax[0], ast.Constant) else None
+            if axv != 0:
+                why.append('summed along axis %r (the batch rows are axis 0)' % axv)
+            base = num.func.value
+            if isinstance(base, ast.Attribute) and base.attr == 'values':
+                base = base.value
+            ctx.need(isinstance(base, ast.Subscript), '%s: summed table `%s`'
+                     % (f.name, norm_text(base)[:50]))
+            try:
+                sel = repo.fold(base.slice, f.module)
+            except ValueError:
+                sel = None
+            if list(sel or ()) != cols:
+                why.append('columns %s are summed, expected %s' % (sel, cols))
+            n_ob += 1
+            ctx.ob('AVG-RATE', not why, None, '%s: averaged %s readings = sum(%s, axis 0) / time_delta'
+                   % (M.kind, role, cols), f=f, node=real[0] if hasattr(real[0], 'lineno') else call,
+                   key='%s-%s' % (M.kind, role),
+                   why='%s filter, readings for the %s model: %s' % (M.kind, role, '; '.join(why)))
+    ctx.floor('AVG-RATE', n_ob, 2 * len(which), 'averaged readings')
+
+
+def step_bound_fb(ctx):
+    ctx.rule('STEP-BOUND', "feedback: batch end = searchsorted(increments.index, min(time + time_step, "
+             "T[m]), side='right'), time = integrator time at the start of the iteration")
+    (M,) = _models(ctx, (FB,))
+    f = M.f
+    body = M.loop.body
+    ndef = [st for st in body if isinstance(st, ast.Assign) and norm_text(st.targets[0]) == M.n]
+    ctx.need(ndef, 'feedback: definition of the batch end not found')
+    st = ndef[0]
+    v = st.value
+    ctx.need(isinstance(v, ast.Call) and M.res(v.func) == 'numpy.searchsorted' and len(v.args) >= 2,
+             'feedback: batch end `%s` is not a searchsorted call' % norm_text(v)[:60])
+    side = None
+    for kw in v.keywords:
+        if kw.arg == 'side' and isinstance(kw.value, ast.Constant):
+            side = kw.value.value
+    if len(v.args) >= 3 and isinstance(v.args[2], ast.Constant):
+        side = v.args[2].value
+    arr = M.clo.text(v.args[0], st)
+    integ = {n.targets[0].id for n in ast.walk(f.node) if isinstance(n, ast.Assign) and
+             isinstance(n.targets[0], ast.Name) and isinstance(n.value, ast.Call) and
+             (M.res(n.value.func) or '').endswith('strapdown.Integrator')}
+
+    def one_level(e, at):
+        """the expression a local name stands for at `at` (one step), else the expression"""
+        if isinstance(e, ast.Name):
+            ds = [s_ for s_ in body if isinstance(s_, ast.Assign) and
+                  isinstance(s_.targets[0], ast.Name) and s_.targets[0].id == e.id and
+                  body.index(s_) < body.index(at)]
+            if ds:
+                return ds[-1].value, ds[-1]
+        return e, at
+    tgt, tst = one_level(v.args[1], st)
+    why = []
+    if side != 'right':
+        why.append("side=%r (an increment stamped exactly at the bound belongs to the batch: "
+                   "side='right')" % side)
+    if arr != 'increments.index':
+        why.append('searched axis is `%s`, not the increment times' % arr)
+    okm = isinstance(tgt, ast.Call) and norm_text(tgt.func) in ('min', 'np.minimum') and \
+        len(tgt.args) == 2
+    if not okm:
+        why.append('bound is `%s`, not min(time + time_step, next epoch)' % norm_text(tgt)[:60])
+    else:
+        a, b = tgt.args
+        if M.clo.text(a, tst) == '%s[%s]' % (M.T, M.m):
+            a, b = b, a
+        if M.clo.text(b, tst) != '%s[%s]' % (M.T, M.m):
+            why.append('bound does not include the next measurement epoch %s[%s]' % (M.T, M.m))
+        oks = isinstance(a, ast.BinOp) and isinstance(a.op, ast.Add)
+        if oks:
+            x, y = a.left, a.right
+            if norm_text(x) == 'time_step':
+                x, y = y, x
+            xv, _ = one_level(x, tst)
+            oks = norm_text(y) == 'time_step' and 'time_step' in f.params and \
+                isinstance(xv, ast.Call) and isinstance(xv.func, ast.Attribute) and \
+                xv.func.attr == 'get_time' and isinstance(xv.func.value, ast.Name) and \
+                xv.func.value.id in integ
+            if oks and isinstance(x, ast.Name):
+                # the time variable is the one defined at the top of the iteration, before any
+                # integrate call
+                d_ = [s_ for s_ in body if isinstance(s_, ast.Assign) and
+                      isinstance(s_.targets[0], ast.Name) and s_.targets[0].id == x.id]
+                adv = [s_ for s_ in body if any(
+                    isinstance(c, ast.Call) and isinstance(c.func, ast.Attribute) and
+                    c.func.attr == 'integrate' for c in ast.walk(s_))]
+                oks = bool(d_) and (not adv or body.index(d_[0]) < body.index(adv[0]))
+        if not oks:
+            why.append('the other bound is `%s`, not (integrator time at the start of the '
+                       'iteration) + time_step' % norm_text(a)[:60])
+    ctx.ob('STEP-BOUND', not why, None, 'feedback: batch never extends beyond min(time + step, next '
+           'epoch)', f=f, node=st, key='fb-next', why='feedback filter: ' + '; '.join(why))
